@@ -12,6 +12,8 @@ THEOREMS = [
     "Mpir.Mm1.reduceLR_eq",
     "Mpir.Mm1.mpn_powm_correct_all_sizes",
     "Mpir.Mm1.mpn_powm_correct_pinned",
+    "Mpir.Mm1.next_size_mono",
+    "Mpir.Mm1.mpz_powm_scratch_ok_even",
 ]
 TRUSTED = ["hand-written model lean/Mpir/Model/Mulmod2expm1.lean: mpn_mulmod_2expm1_basecase, mpn_mulmod_2expm1 (split into the "
            "2^h-1 / 2^h+1 halves on both the k == 0 and k != 0 paths, recursion, flags c1*2+c2, recombination, final halving), "
